@@ -96,6 +96,10 @@ def public_attrs(msg):
 
 
 _calls = [0]
+# bytes and bytearray buffers everywhere; (writable) memoryview buffers only where a check asks for them
+# (C04: "any buffer given to the static parser") - a message built over a memoryview has no evaluable repr,
+# and C07 speaks of payloads, i.e. bytes
+MEMORYVIEW_BUFFERS = False
 
 
 def record_decode(rid, payload, labelmsm=1, via="ctor", fields=None, frame=None, validate=1, omit=None):
@@ -138,19 +142,37 @@ def record_decode(rid, payload, labelmsm=1, via="ctor", fields=None, frame=None,
         kw = {} if (omit and labelmsm == 1 and labelmsm is not True) else {"labelmsm": labelmsm}
         # the buffer comes as bytes, bytearray or a (writable) memoryview: all are "bytes" to a parser
         bt = _calls[0] % 5
+        if bt == 4 and not MEMORYVIEW_BUFFERS:
+            bt = 3
         def buf(b):
             return bytes(b) if bt < 3 else (bytearray(b) if bt == 3 else memoryview(bytearray(b)))
+        # calling style: keywords, or POSITIONAL arguments in the documented order
+        #   RTCMMessage(payload, labelmsm)   RTCMReader.parse(message, validate, labelmsm)
+        positional = (_calls[0] // 2) % 3 == 1
         if via == "ctor":
-            msg = RTCMMessage(payload=buf(payload) if bt != 4 else bytes(payload), **kw)
+            pl_ = buf(payload) if bt != 4 else bytes(payload)
+            if positional:
+                msg = RTCMMessage(pl_, labelmsm)
+            else:
+                msg = RTCMMessage(payload=pl_, **kw)
         elif via == "parse":
             rec["p"] = []
-            if not (omit and validate == 1):
-                kw["validate"] = validate
-            msg = RTCMReader.parse(buf(frame), **kw)
+            if positional:
+                msg = RTCMReader.parse(buf(frame), validate, labelmsm)
+            else:
+                if not (omit and validate == 1):
+                    kw["validate"] = validate
+                msg = RTCMReader.parse(buf(frame), **kw)
         else:
             import io
 
-            rdr = RTCMReader(io.BytesIO(frame_of(payload)), labelmsm=labelmsm, quitonerror=2)
+            # (the reader as entry point: validation on or off - the frame is valid either way - and
+            #  constructor arguments by keyword or positionally in the documented order
+            #  RTCMReader(datastream, validate, quitonerror, labelmsm))
+            if positional:
+                rdr = RTCMReader(io.BytesIO(frame_of(payload)), validate, 2, labelmsm)
+            else:
+                rdr = RTCMReader(io.BytesIO(frame_of(payload)), labelmsm=labelmsm, quitonerror=2, validate=validate)
             _raw, msg = rdr.read()
             if msg is None:
                 raise RuntimeError("reader returned no message")
